@@ -19,7 +19,7 @@ from ..cfg import must_facts, holds, canon_fact
 from ..rules import settle_sites, check_settles
 from ..mutate import mutate, remove_stmts, replace_expr, replace_stmt, parse_stmt, parse_expr
 from ..model import AnalysisError
-from ..x_sync import own_walk, guard_models, aug_delta, node_counts, method_call_on, container_uses, exit_states, reaches, lambda_or_func_body_calls, own_find, own_settle_sites
+from ..x_sync import check_none_tests, own_walk, guard_models, aug_delta, node_counts, method_call_on, container_uses, exit_states, reaches, lambda_or_func_body_calls, own_find, own_settle_sites
 
 TECHNIQUE = "typestate over the CFG (permit accounting), exhaustive guard folding, settle-discipline and who-may-touch lint"
 EXPLANATION = (
@@ -435,6 +435,11 @@ def check_ctx(ck, grants):
         for _f, k in normal:
             ck.ob("C33.ctx", ex, ex.node, k == 1, "%s.__exit__ releases the held semaphore exactly once, whatever the exit reason (count=%d)" % (cls, k), construct="exit releases=%d" % k)
     for cls in ("Semaphore", "Lock"):
+        ae = ck.func(L, cls + ".__aenter__")
+        aw = [a for a in own_walk(ae.node) if isinstance(a, ast.Await) and method_call_on(a.value, "self", "acquire")]
+        bare = [c for c in own_walk(ae.node) if method_call_on(c, "self", "acquire") and not any(a.value is c for a in aw)]
+        ok = len(aw) == 1 and not bare and ae.cfg.postdominates(ae.cfg.nodes_for(aw[0])[0], ae.cfg.entry)
+        ck.ob("C33.ctx", ae, ae.node, ok, "%s.__aenter__ awaits self.acquire() on every path (the block is entered only with a permit)" % cls, construct="aenter awaits acquire")
         ax = ck.func(L, cls + ".__aexit__")
         rc = node_counts(ax, lambda x: method_call_on(x, "self", "release"))
         normal, _ = exit_states(ax.cfg, 0, lambda nd, v: min(2, v + rc.get(nd.id, 0)))
@@ -450,6 +455,7 @@ def run(ck):
     ck.rule("C33.fifo", "the waiter queue is modified only by append (tail) and popleft (head); it is rebound only by the constructor and the garbage collector")
     ck.rule("C33.gc-live", "_garbage_collect keeps exactly the not-done waiters, in order, and does not touch _value")
     ck.rule("C33.timeout", "a queued acquire with a timeout arms one timer with that timeout; its callback fails a live waiter with TimeoutError exactly once, never grants, never changes _value")
+    ck.rule("C33.none-test", "acquire's timeout is compared with None by identity (timeout=0 is a legal, immediate timeout)")
     ck.rule("C33.bounded", "BoundedSemaphore.release returns the permit only while _value < initial value, otherwise raises; the bound is fixed at construction")
     ck.rule("C33.lock", "Lock wraps BoundedSemaphore(1); release translates (never swallows) the bound error; acquire delegates with the timeout")
     ck.rule("C33.ctx", "the context manager a grant resolves to, and __aexit__, release the same primitive exactly once")
@@ -475,6 +481,16 @@ def run(ck):
                 continue
             for _n, c in own_find(fi, _is_grant):
                 ck.ob("C33.grant-guard", fi, c, False, "waiters are granted only by Semaphore.acquire/release")
+    n = check_none_tests(ck, "C33.none-test", acq, only=[tparam])
+    ck.floor("C33.none-test", n, 1, "tests of the timeout in acquire")
+    si = ck.func(L, "Semaphore.__init__")
+    vp = [x for x in si.params() if x != "self"][0]
+    sts = q.stores_to(si.node, VAL)
+    ck.ob("C33.grant-guard", si, si.node, len(sts) == 1 and q.dotted(getattr(sts[0], "value", None)) == vp, "the initial number of permits is the constructor's value", construct="initial permits")
+    facts_i = must_facts(si.cfg)
+    rs = [nd for nd in si.cfg.stmt_nodes(lambda nd: nd.kind == "stmt" and isinstance(nd.ast, ast.Raise))]
+    ok = any(guard_models(facts_i[nd.id], [vp], range(-3, 4)) == {(-3,), (-2,), (-1,)} for nd in rs)
+    ck.ob("C33.grant-guard", si, si.node, ok, "a negative initial value (and only that) is rejected", construct="rejects negative initial value")
     raised = check_bounded(ck)
     check_lock(ck, raised)
     check_ctx(ck, [(acq, c) for _n, c in own_find(acq, _is_grant)] + [(rel, c) for _n, c in own_find(rel, _is_grant)])
@@ -527,6 +543,9 @@ def _drop_done_test(root):
 
 
 MUTANTS = [
+    ("async with enters without waiting for the permit (__aenter__ does not await)", _in("Semaphore.__aenter__", replace_stmt(lambda st: isinstance(st, ast.Expr) and isinstance(st.value, ast.Await), lambda st: [ast.Expr(value=st.value.value)])), "C33.ctx"),
+    ("Semaphore(0) rejected / Semaphore(-1) off by one (value <= 0)", _in("Semaphore.__init__", _cmp_op(ast.Lt, ast.LtE)), "C33.grant-guard"),
+    ("acquire(timeout=0) waits forever (`if timeout:`)", _in("Semaphore.acquire", replace_expr(lambda n: isinstance(n, ast.Compare) and isinstance(n.ops[0], ast.IsNot) and ast.unparse(n.left) == "timeout", lambda n: n.left)), ("C33.none-test", "C33.timeout")),
     ("release grants without taking the permit back", _in("Semaphore.release", remove_stmts(lambda st: _is_aug(st, VAL, ast.Sub))), "C33.release-ts"),
     ("release serves the newest waiter (pop instead of popleft)", _in("Semaphore.release", _rename_attr("popleft", "pop")), ("C33.fifo", "C33.release-ts")),
     ("release grants a popped waiter without the done() test", _in("Semaphore.release", _drop_done_test), ("C33.settle", "C33.release-ts")),
